@@ -17,7 +17,17 @@ Oracle (independent of the code under test; evaluated on the implementation itse
   * positive phase = gradient / |batch| = mean of the per-sample (1-D form) gradients, for any row permutation and
     any split of the batch;
   * every public gradient method is callable and they agree with each other (compute_exact_grads alias,
-    Positive wrappers ignoring bases, gradient(bases=None) = all-Z path).
+    Positive wrappers ignoring bases, gradient(bases=None) = all-Z path);
+  * a second, analytic oracle: the gradient of the Born-rule NLL from an OWN log-domain implementation of the three
+    state types (nothing of qucumber), differentiated by torch autograd in complex128 — exact also where finite
+    differences are not (improbable outcomes, saturated couplings); a data row whose rotated amplitude is a difference of
+    nearly equal numbers (cancellation factor >= 1e5) gives no verdict from it (counted);
+  * SIZE regime (run first): same-basis groups of L-1, L, L+1 rows for L in 256 / 512 / 1000 / 1024 / 2048 / 4096 and
+    primes above them, rotated and all-Z, every state type, one batch = one group as well as many groups in one batch;
+  * NUMERIC regimes (fixed cases first, then in the stream): improbable outcomes (p down to 1e-16, unnormalised far below
+    1e-8), a site within eps of a product state, couplings up to 30, rare rows;
+  * ARGUMENT regimes: every bases / samples memory layout (Fortran order, column / row strided, negative stride, views of
+    larger tables), the SAME 1-D sample tensor / basis objects handed over again, all methods again on the same batch objects.
 
 Recorded only (evidence histogram internal_agree:* / internal_differs:* / internal_unavailable:*, never a verdict):
   the internal helpers effective_energy_gradient, gamma_grad / pi_grad (expand=True, the only form the library uses),
@@ -33,10 +43,24 @@ RULE = ("state types positive / complex / density-matrix; nv 1..3 (quick) / 1..4
         "generated first and interleaved with the other state types; data sets: every one of the 3^n basis strings "
         "(n <= 3 quick, <= 4 thorough) with 1-3 outcomes of probability >= 1e-4 each, plus mixed batches with repeated bases, all-Z rows, a random "
         "row permutation and a random split; a case is (state type, shape, parameter draw, data set); "
-        "non-trivial := >= 2 distinct bases incl. one containing Y, all biases non-zero")
+        "non-trivial := >= 2 distinct bases incl. one containing Y, all biases non-zero.  "
+        "Run FIRST (no time budget): large same-basis groups (group sizes L-1, L, L+1 for L in 256/512/1000/1024/2048/4096 and the primes "
+        "263/521/1009/1031/2053/4099, rotated and all-Z groups, nv 1..3, one batch = one group of 1025 rows and 20+ groups in one batch; "
+        "non-trivial := a rotated group of > 255 rows) and numeric regimes (amplitude visible bias -20..-30 with data rows of probability "
+        "1e-16..1e-4; one site within 1e-5..1e-1 of |+> / |+i>; half of the weights of magnitude 6..30); the stream starts with nv = 3 for "
+        "every state type and interleaves one numeric-regime case after every three ordinary ones")
 ASSUMPTIONS = ["finite differences (steps 1e-4 / 5e-5, Richardson) resolve the NLL derivative to ~1e-8 absolute; a case is "
                "failed only if three step pairs all disagree with the returned gradient by more than 1e-6 * max(1, |g|_max)",
-               "measurement unitaries of the oracle: X = H, Y = rows <+i|, <-i|, Z = identity; site 0 is the most significant bit"]
+               "measurement unitaries of the oracle: X = H, Y = rows <+i|, <-i|, Z = identity; site 0 is the most significant bit",
+               "analytic oracle (own log-domain NLL + torch autograd): a returned gradient is failed when an entry differs by more than "
+               "1e-7 * max(1, |g|_max) (unchanged tree: <= 1e-9 in every regime generated here); data sets containing a row whose rotated "
+               "amplitude / probability is a sum with cancellation factor sum|terms| / |sum| >= 1e5 get no verdict from it, and none from "
+               "finite differences when the factor is >= 50 (regime cases) or an outcome has probability < 1e-7 (histories)",
+               "large same-basis groups: identical rows have identical per-sample gradients, so the sum over the rows is taken as "
+               "sum over distinct (basis, outcome) of count * gradient(1-D form); the NLL likewise from the counts",
+               "memory layouts / repeated calls with the same argument objects: required is only that the call succeeds and returns the "
+               "gradient of the values the caller holds; whether an argument's shape / strides were altered is recorded, not required",
+               "sample tensors of dtype other than double raise on the unchanged tree as soon as a basis is rotated: recorded only"]
 
 L2N = {"X": 0, "Y": 1, "Z": 2}
 SQ = 1.0 / math.sqrt(2.0)
@@ -480,6 +504,21 @@ def bases_call_forms(ctx, s, kind, space, smp, bases, nb, case, G, PP, EX, scale
             okk, g = ctx.call("gradient 1-D form, bases given as " + name, c2, lambda: tlist(s.gradient(smp[i], bases=enc)))
             if okk:
                 ctx.require("gradient 1-D form does not depend on the encoding of the basis", close_all(g, ref, sc), c2, {"basis": b})
+    nvv = nb.shape[1]
+    full_nb, full_smp, full_B, full_res, full_case, full_bases = nb, smp, B, (G, PP, EX), case, bases
+    if not ctx.thorough and B > 6:
+        # quick tier: a sub-batch of 6 rows (a rotated one with Y and an all-Z one among them) carries the layouts; the
+        # cost of a gradient call grows with the number of distinct bases, the layout handling does not depend on it
+        keep = list(dict.fromkeys(picks + [int(x) for x in ctx.rng.permutation(B)]))[:6]
+        nb, smp, B, bases = full_nb[keep].copy(), full_smp[keep].clone(), len(keep), [full_bases[i] for i in keep]
+        okg, Gs = ctx.call("gradient", dict(case, rows_used=keep), lambda: tlist(s.gradient(smp, bases=nb)))
+        okp, PPs = ctx.call("positive_phase_gradients", dict(case, rows_used=keep), lambda: tlist(s.positive_phase_gradients(smp, bases_batch=nb)))
+        oke, EXs = ctx.call("compute_exact_gradients", dict(case, rows_used=keep), lambda: tlist(s.compute_exact_gradients(smp, space, bases_batch=nb)))
+        if not (okg and okp and oke):
+            return
+        case = dict(case, rows_used=keep)
+        G, PP, EX = Gs, PPs, EXs
+        picks = list(range(min(2, len(picks))))             # picks were put first
     # ---- batched form: encodings of the bases, all three public methods
     forms = (("list of lists", [list(b) for b in bases]), ("tuple of tuples", tuple(tuple(b) for b in bases)),
              ("list of tuples", [tuple(b) for b in bases]), ("numpy matrix (fresh copy)", np.array([list(b) for b in bases])))
@@ -541,6 +580,7 @@ def bases_call_forms(ctx, s, kind, space, smp, bases, nb, case, G, PP, EX, scale
                 okk, g = ctx.call("gradient 1-D form, " + name, c2, lambda: tlist(s.gradient(srow, bases=brow)))
                 if okk:
                     ctx.require("gradient 1-D form does not depend on the memory layout of the sample / basis", close_all(g, ref, sc), c2)
+    nb, smp, B, (G, PP, EX), case, bases = full_nb, full_smp, full_B, full_res, full_case, full_bases
     # ---- a batch given as a list of whole basis strings (["XY", "ZZ", ...]): recorded; required only when a known-findings
     #      entry matching LIST_OF_STRINGS_MATCH is open (on /repo this form raises IndexError — reported to the integrator)
     try:
@@ -842,13 +882,19 @@ def history_case(ctx, s, kind, space, bases, samples, case):
         ok, ex = ctx.call("compute_exact_gradients (%s)" % what, c2, lambda: tlist(s.compute_exact_gradients(smp_t, space, **kwb(nb_a))))
         if not ok:
             return
-        # skip the comparison when an outcome became (numerically) impossible after the move: the NLL is singular there
+        # the analytic oracle at the CURRENT parameters (read back from the object, parameters() order): also valid when an
+        # outcome became improbable after the move
+        now = [[np.asarray(x, dtype=float) for x in net] for net in c2["params_now"]]
+        nvv = int(space.shape[1])
+        analytic_relation(ctx, "compute_exact_gradients == analytic gradient of the NLL (same object: %s)" % what, kind,
+                          now[0], now[1] if len(now) > 1 else None, nvv, rows_to_groups(list(bs), [list(r) for r in sm], nvv), ex, c2)
+        # finite differences: skipped when an outcome became (numerically) impossible after the move (step 1e-3 too coarse there)
         if kind != "positive":
             for b in set(bs):
                 pr = outcome_probs(s, kind, space, b, Ucache)
                 ix = [int(idx_of(r)[0]) for bb, r in zip(bs, sm) if bb == b]
                 if np.min(pr[ix]) < 1e-7:
-                    ctx.count("history_skipped_improbable_outcome")
+                    ctx.count("history_fd_skipped_improbable_outcome")
                     return
         f = make_nll(s, kind, space, list(bs), [list(r) for r in sm], Ucache)
         good, det = fd_spot_matches(s, f, ex, pick_coords())
@@ -990,6 +1036,39 @@ def analytic_nll_grads(kind, am, ph, nv, groups):
     return out, kappa
 
 
+def own_outcome_kappas(kind, am, ph, nv, basis):
+    """cancellation factor sum|terms| / |sum| of the rotated amplitude (pure) / regularised rotated probability (mixed) of every
+    outcome of `basis`, from an own numpy rendering of the state (shifted by the largest log-amplitude; nothing of qucumber)"""
+    sp = np.array(list(itertools.product([0.0, 1.0], repeat=nv)))
+
+    def gam(W, b, c):
+        return sp @ np.asarray(b, dtype=float) + np.logaddexp(0.0, sp @ np.asarray(W, dtype=float).T + np.asarray(c, dtype=float)).sum(-1)
+    U = kron_u(basis)
+    if kind != "dm":
+        la = 0.5 * gam(*am)
+        phs = 0.5 * gam(*ph) if ph is not None else np.zeros_like(la)
+        psi = np.exp(la - la.max() + 1j * phs)
+        with np.errstate(divide="ignore", invalid="ignore"):
+            return (np.abs(U) @ np.abs(psi)) / np.abs(U @ psi)
+    W, Uw, b_, c_, d_ = [np.asarray(x, dtype=float) for x in am]
+    Wp, Up, bp, cp, _ = [np.asarray(x, dtype=float) for x in ph]
+    aux = np.array(list(itertools.product([0.0, 1.0], repeat=Uw.shape[0])))
+    la = 0.5 * (gam(W, b_, c_)[:, None] + (aux @ d_)[None, :] + sp @ Uw.T @ aux.T)
+    phs = 0.5 * (gam(Wp, bp, cp)[:, None] + sp @ Up.T @ aux.T)
+    m = la.max()
+    pur = np.exp(la - m + 1j * phs)
+    rho = pur @ pur.conj().T
+    P = np.real(np.einsum("ij,jk,ik->i", U, rho, U.conj()))
+    Pabs = np.einsum("ij,jk,ik->i", np.abs(U), np.abs(rho), np.abs(U))
+    reg = 0.0 if set(basis) == {"Z"} else 1e-8 * math.exp(-2.0 * m)
+    with np.errstate(divide="ignore", invalid="ignore"):
+        return Pabs / (np.abs(P) + reg)
+
+
+KAPPA_ROW = 1e4     # data rows of the numeric-regime cases: beyond this every float evaluation of the row's gradient (the library's batch
+                    # path, its per-sample path, the model, the oracle) keeps fewer than ~12 digits and they differ from each other by rounding
+
+
 def rows_to_groups(bases, samples, nv):
     cnt = {}
     for b, row in zip(bases, samples):
@@ -997,7 +1076,7 @@ def rows_to_groups(bases, samples, nv):
     return [[b, c.tolist()] for b, c in cnt.items()]
 
 
-KAPPA_MAX = 1e6     # beyond this the rotated amplitude of a data row is a difference of nearly equal numbers: neither the library
+KAPPA_MAX = 1e5     # beyond this the rotated amplitude of a data row is a difference of nearly equal numbers: neither the library
                     # nor this oracle resolves its gradient to 1e-7; such a data set is only counted (analytic_skipped_cancellation)
 
 
@@ -1356,18 +1435,80 @@ def random_large_case(ctx):
     large_case(ctx, kind, nv, nh, na, sizes)
 
 
+# --------------------------------------------------------------------------- numeric regimes the ordinary stream never reaches
+# ordinary stream: |parameters| <= 6 and only outcomes of probability >= 1e-4.  The property quantifies over every parameter
+# setting and every data set, so (measured on the unchanged tree: analytic oracle agrees to < 1e-9 * |g|_max in all of them)
+#   improbable_outcome : amplitude visible bias of -20..-30 (rarely +20..+30) on one site; data rows whose (rotated) outcome has
+#                        probability 1e-16..1e-4 — unnormalised probability far below 1e-8 — without any cancellation
+#   near_product_site  : one site within eps (1e-5..1e-1) of |+> or |+i> (all its couplings and biases ~ eps): an X / Y outcome
+#                        there is a difference of nearly equal amplitudes (a data row is kept while its cancellation factor is < 1e4)
+#   large_couplings    : half of the weights with magnitude 6..30 (pre-activations up to ~ +-100, sigmoids saturate, psi ~ e^150)
+#   rare_rows          : an ordinary parameter draw, data rows of probability down to 1e-13 included
+REGIMES = ("improbable_outcome", "near_product_site", "large_couplings", "rare_rows")
+
+
+def regime_params(ctx, kind, nv, nh, na, regime, negative_bias=False):
+    am, ph = draw_params(ctx, kind, nv, nh, na)
+    nets = [am] + ([ph] if ph is not None else [])
+    bi = 2 if kind == "dm" else 1                           # index of the visible bias in [W, (U), b, c, (d)]
+    j = int(ctx.rng.integers(0, nv))
+    if regime == "improbable_outcome":
+        am[bi][j] = -ctx.rng.uniform(20.0, 30.0) * (1.0 if (ctx.rng.random() < 0.8 or negative_bias) else -1.0)
+    elif regime == "near_product_site":
+        eps = 10.0 ** ctx.rng.uniform(-5, -1)
+        turn = kind != "positive" and ctx.rng.random() < 0.5        # |+i> instead of |+>: the Y outcome becomes the rare one
+        for ni, net in enumerate(nets):
+            net[0][:, j] = eps * ctx.rng.normal(size=net[0].shape[0])
+            if kind == "dm":
+                net[1][:, j] = eps * ctx.rng.normal(size=net[1].shape[0])
+            net[bi][j] = eps * float(ctx.rng.choice([-1.0, 1.0])) * ctx.rng.uniform(0.5, 1.5) + (math.pi if (ni == 1 and turn) else 0.0)
+    elif regime == "large_couplings":
+        for net in nets:
+            for wi in ([0, 1] if kind == "dm" else [0]):
+                W = net[wi]
+                mask = ctx.rng.random(W.shape) < 0.5
+                mag = np.exp(ctx.rng.uniform(np.log(6.0), np.log(30.0), size=W.shape)) * ctx.rng.choice([-1.0, 1.0], size=W.shape)
+                W[mask] = mag[mask]
+    return am, ph
+
+
+def regime_dataset(ctx, s, kind, nv, space, Ucache, pmin=1e-16, am=None, ph=None):
+    """per basis: one ordinary outcome (p >= 1e-4) and up to two rare ones (pmin <= p < 1e-4); at most 9 bases + all-Z;
+    only outcomes whose cancellation factor is below KAPPA_ROW (an improbable outcome WITHOUT cancellation is kept)"""
+    allb = gen.all_bases(nv) if kind != "positive" else ["Z" * nv]
+    if len(allb) > 9:
+        z = "Z" * nv
+        allb = [z] + [allb[i] for i in ctx.rng.choice(len(allb), size=9, replace=False) if allb[i] != z][:8]
+    sp = space.numpy()
+    rows = []
+    for b in allb:
+        p = outcome_probs(s, kind, space, b, Ucache)
+        kap = own_outcome_kappas(kind, am, ph, nv, b)[idx_of(sp)] if am is not None else np.ones(len(p))
+        wellc = kap < KAPPA_ROW
+        ctx.count("regime_outcomes_dropped_cancellation", int(np.sum(~wellc & (p >= pmin))))
+        for pool, k in ((np.where((p >= 1e-4) & wellc)[0], 1), (np.where((p >= pmin) & (p < 1e-4) & wellc)[0], 2)):
+            if pool.size:
+                for o in ctx.rng.choice(pool, size=min(k, pool.size), replace=False):
+                    rows.append((b, sp[int(o)].tolist(), float(p[int(o)])))
+    perm = ctx.rng.permutation(len(rows))
+    rows = [rows[i] for i in perm]
+    return [r[0] for r in rows], [r[1] for r in rows], (min(r[2] for r in rows) if rows else 1.0)
+
+
 # --------------------------------------------------------------------------- one generated case
-def one_case(ctx, kind, nv, nh, na, corr=True, given=None):
+def one_case(ctx, kind, nv, nh, na, corr=True, given=None, regime=None, negative_bias=False):
     import torch
     if given is None:
-        am, ph = draw_params(ctx, kind, nv, nh, na)
+        am, ph = draw_params(ctx, kind, nv, nh, na) if regime is None else regime_params(ctx, kind, nv, nh, na, regime, negative_bias)
     else:
         am, ph = given["am"], given["ph"]
     s = build(kind, nv, nh, na, am, ph)
     space = s.generate_hilbert_space()
     Ucache = {}
-    if given is None:
+    if given is None and regime is None:
         bases, samples = draw_dataset(ctx, s, kind, nv, space, Ucache)
+    elif given is None:
+        bases, samples, _ = regime_dataset(ctx, s, kind, nv, space, Ucache, pmin=1e-13 if regime == "rare_rows" else 1e-16, am=am, ph=ph)
     else:
         bases, samples = given["bases"], given["samples"]
     if not bases:
@@ -1382,7 +1523,23 @@ def one_case(ctx, kind, nv, nh, na, corr=True, given=None):
               "w00": float(np.asarray(am[0])[0, 0])}, nontrivial=nontriv)
     ctx.count("state:" + kind); ctx.count("nv:%d" % nv); ctx.count("rows", len(bases))
     ctx.count("bases_with_Y", sum(1 for b in distinct if "Y" in b)); ctx.count("all_Z_rows", sum(1 for b in bases if set(b) == {"Z"}))
-    impl = oracle_case(ctx, s, kind, space, bases, samples, case, am=am, ph=ph)
+    # finite differences need a smooth NLL at step 1e-3: no data row may be a difference of nearly equal amplitudes
+    full_fd = True
+    regime = regime or (given or {}).get("regime")
+    if regime is not None:
+        if kind != "positive":
+            try:
+                _, kappa = analytic_nll_grads(kind, am, ph, nv, rows_to_groups(bases, samples, nv))
+            except Exception:
+                kappa = float("inf")
+            full_fd = kappa < 50.0
+            if corr and not kappa < 1e3:            # the float model loses the same digits as the library there: no verdict from it
+                corr = False
+                ctx.count("regime_model_correspondence_skipped_cancellation")
+        case["regime"] = regime
+        ctx.count("regime:%s:%s" % (case["regime"], kind))
+        ctx.count("regime_fd:" + ("run" if full_fd else "skipped_cancellation"))
+    impl = oracle_case(ctx, s, kind, space, bases, samples, case, full_fd=full_fd, am=am, ph=ph)
     if corr and impl is not None:
         corr_state_level(ctx, s, kind, am, ph, space, bases, samples, case, impl)
         corr_layout(ctx, s, kind, am, ph, case)
@@ -1397,28 +1554,47 @@ def shapes(ctx, kind):
     if kind == "dm":
         if ctx.thorough:
             return [(1, 1, 2), (1, 2, 1), (2, 1, 3), (2, 3, 1), (2, 2, 2), (3, 2, 2), (3, 4, 1), (3, 1, 2), (4, 3, 2), (4, 2, 3)]
-        return [(1, 2, 2), (2, 3, 1), (2, 1, 3), (3, 2, 2)]
+        return [(3, 2, 2), (2, 3, 1), (1, 2, 2), (2, 1, 3)]        # nv = 3 first: the budget never cuts the first two per state type
     if ctx.thorough:
         return [(nv, nh, 0) for nv in range(1, 5) for nh in range(1, 6) if (nv + nh) % 2 == 1 or nv == nh == 2]
-    return [(1, 2, 0), (2, 3, 0), (2, 1, 0), (3, 2, 0), (3, 4, 0)]
+    return [(3, 2, 0), (2, 3, 0), (1, 2, 0), (2, 1, 0), (3, 4, 0)]
 
 
 KINDS = ("dm", "complex", "positive")      # mixed states first: their NLL clause has no theorem, only this check
 
 
 def jobs(ctx, draws):
-    """round-robin over state types and shapes, so that every state type and every shape is exercised early"""
+    """round-robin over state types and shapes, so that every state type and every shape is exercised early; after the first
+    two rounds a numeric-regime case (see REGIMES) follows every third ordinary case"""
     per = {k: shapes(ctx, k) for k in KINDS}
     out = []
+    r0 = int(ctx.rng.integers(0, len(REGIMES)))
+    nreg = 0
     for d in range(draws):
         for i in range(max(len(v) for v in per.values())):
             for k in KINDS:
                 if i < len(per[k]) and not (k == "positive" and d == draws - 1 and draws > 1):
-                    out.append((k,) + tuple(per[k][i]))
+                    out.append((k,) + tuple(per[k][i]) + (None,))
+            if d > 0 or i >= 1:
+                k = ("complex", "dm", "complex", "dm", "positive")[nreg % 5]
+                sh = per[k][int(ctx.rng.integers(0, len(per[k])))]
+                out.append((k,) + tuple(sh) + (REGIMES[(r0 + nreg) % len(REGIMES)],))
+                nreg += 1
     return out
 
 
-BUDGET_S = {"quick": 18, "thorough": 420}      # generation budget; the first two cases of every state type ignore it
+def fixed_regime_cases(ctx):
+    """always run (before the budgeted stream): an improbable rotated outcome (unnormalised probability ~ 1e-9..1e-13, far
+    below every 1e-8 guard) for a pure and for a mixed state, and one near-product / large-coupling case"""
+    ctx.torch_seed()
+    one_case(ctx, "complex", 2, 3, 0, regime="improbable_outcome", negative_bias=True)
+    ctx.torch_seed()
+    one_case(ctx, "dm", 2, 1, 2, regime="improbable_outcome", negative_bias=True)
+    ctx.torch_seed()
+    one_case(ctx, "complex", 2, 2, 0, regime=("near_product_site", "large_couplings")[int(ctx.rng.integers(0, 2))])
+
+
+BUDGET_S = {"quick": 14, "thorough": 390}      # generation budget; the first two cases of every state type ignore it
 
 
 def run(ctx):
@@ -1429,15 +1605,21 @@ def run(ctx):
     for _ in range(12 if ctx.thorough else 2):
         random_large_case(ctx)
     ctx.extra["large_cases_wall_s"] = round(time.time() - tl, 2)
+    tl = time.time()
+    fixed_regime_cases(ctx)
+    ctx.extra["fixed_regime_cases_wall_s"] = round(time.time() - tl, 2)
     t0 = time.time()
     budget = BUDGET_S["thorough" if ctx.thorough else "quick"]
-    for (kind, nv, nh, na) in jobs(ctx, draws):
-        done = ctx.hist.get("completed:" + kind, 0)
-        if time.time() - t0 > budget and done >= 2:        # never skip a state type that has not been exercised yet
-            ctx.count("skipped_time_budget:" + kind)
+    for (kind, nv, nh, na, regime) in jobs(ctx, draws):
+        done = ctx.hist.get("completed_stream:" + kind, 0)
+        # never skip a state type before its first two ordinary cases ran (quick tier: nv = 3 and nv = 2, all 3^n bases)
+        if time.time() - t0 > budget and (done >= 2 or regime is not None):
+            ctx.count("skipped_time_budget:" + kind + (":regime" if regime else ""))
             continue
         ctx.torch_seed()
-        one_case(ctx, kind, nv, nh, na)
+        one_case(ctx, kind, nv, nh, na, regime=regime)
+        if regime is None:
+            ctx.count("completed_stream:" + kind)
     for kind in KINDS:
         if ctx.hist.get("completed:" + kind, 0) == 0:
             ctx.disagreements.append({"what": "no %s case was completed in this run: the clause is unchecked" % kind,
@@ -1451,10 +1633,17 @@ def search(ctx, broken, budget):
     fixed_large_cases(ctx)
     if len(ctx.failures) > n0:
         return ctx.failures[n0]
+    fixed_regime_cases(ctx)
+    if len(ctx.failures) > n0:
+        return ctx.failures[n0]
     for rnd in range(50):
         random_large_case(ctx)
         if len(ctx.failures) > n0:
             return ctx.failures[n0]
+        for kind, sh in (("complex", (2, 3, 0)), ("dm", (2, 1, 2))):
+            one_case(ctx, kind, *sh, corr=False, regime=REGIMES[rnd % len(REGIMES)])
+            if len(ctx.failures) > n0:
+                return ctx.failures[n0]
         for kind in ("positive", "complex", "dm"):
             for (nv, nh, na) in [(1, 1, 1), (1, 2, 2), (2, 1, 1), (2, 3, 2), (2, 2, 1), (3, 2, 2)]:
                 one_case(ctx, kind, nv, nh, na if kind == "dm" else 0, corr=False)
@@ -1477,4 +1666,4 @@ def replay(ctx, rec):
         return
     print("replay of", case["state"], "nv=%s nh=%s na=%s" % (case["nv"], case["nh"], case["na"]), "rows=%d" % len(case["bases"]))
     one_case(ctx, case["state"], case["nv"], case["nh"], case["na"], corr=True,
-             given={"am": case["am"], "ph": case["ph"], "bases": case["bases"], "samples": case["samples"]})
+             given={"am": case["am"], "ph": case["ph"], "bases": case["bases"], "samples": case["samples"], "regime": case.get("regime")})
